@@ -17,3 +17,4 @@ def run(chk):
     backtest_rules.run_loop(chk, "C07")
     core_rules.accessor_rules(chk, "C07")
     core_rules.security_setup_rules(chk, "C07")  # the outlay / bid-offer history columns start at zero on both setup paths
+    core_rules.coupon_accrual(chk, "C07")  # the swept carry (coupon less holding cost) that enters the parent's cash is a well-defined amount on every side of the position
